@@ -25,6 +25,7 @@ def check(ctx):
     collector.rule_map_ops(ctx, c, "R2")
     from .. import provrules
     provrules.rule_collect_ids(ctx, facts, "R2")
+    provrules.rule_not_sampled_sentinel(ctx, facts, "R2")
     collector.rule_drain_keeps_live(ctx, c, "R3")
     collector.rule_registry_in_place(ctx, c, "R3")
     spsc.rule_try_recv(ctx, facts, "R3")
